@@ -17,6 +17,7 @@ V = ["01", "02"]
 def ret_monitor(ops, impl):
     out = []
     d = {}
+    emptied = set()
     for i, (op, res) in enumerate(zip(ops, impl)):
         f = op.split()
         if res.startswith("panic") or res in ("<no-output>", "err", "dump-err", "load-err"):
@@ -24,12 +25,15 @@ def ret_monitor(ops, impl):
             continue
         if f[0] == "new":
             d = {}
+            emptied = set()
         elif f[0] == "ins":
             exp_old = f[1] in d
-            if res != f"old={'true' if exp_old else 'false'}":
+            # (what Insert reports for a key whose value was emptied rather than removed is left to the model comparison)
+            if f[1] not in emptied and res != f"old={'true' if exp_old else 'false'}":
                 out.append((i, "insert-old-flag", f"Insert({f[1]}) reported {res}, store held a value: {exp_old}"))
-            if f[2] == "-":
+            if f[2] in ("-", "="):      # nil, or empty but not nil: both mean "no entry"
                 d.pop(f[1], None)
+                emptied.add(f[1])
             else:
                 d[f[1]] = f[2]
         elif f[0] == "rm":
@@ -102,7 +106,7 @@ def main(tier=None):
     rng = c.rng
     samples = []
     N = 3 if c.tier == "quick" else 4
-    ret_steps = [f"ins {k} {v}" for k in KEYS for v in V] + [f"rm {k}" for k in KEYS]
+    ret_steps = [f"ins {k} {v}" for k in KEYS for v in V] + [f"rm {k}" for k in KEYS] + [f"ins {k} =" for k in KEYS[:3]]
     sub_steps = [f"set {k} {v}" for k in KEYS for v in ("01", "-", "=")] + [f"app {k} 02" for k in KEYS]
     for name, dom, steps, obs, mon in (("ret", "rettree", ret_steps, observe_ret(KEYS), ret_monitor),
                                        ("sub", "subtree", sub_steps, observe_sub(KEYS), sub_monitor)):
@@ -130,7 +134,7 @@ def main(tier=None):
                     ops.append("dumpload")
                 elif dom == "rettree":
                     k = rng.choice(keys)
-                    ops.append(f"ins {k} {rng.choice(V + ['03', '-'])}" if rng.random() < 0.6 else f"rm {k}")
+                    ops.append(f"ins {k} {rng.choice(V + ['03', '-', '='])}" if rng.random() < 0.6 else f"rm {k}")
                 else:
                     k = rng.choice(keys)
                     ops.append(rng.choice([f"set {k} 01", f"set {k} -", f"set {k} =", f"app {k} 02", f"set {k} 0405"]))
